@@ -29,6 +29,7 @@ type c20Case struct {
 	Tail   []c12Rec `json:"tail,omitempty"`
 	TailAt int      `json:"tail_at,omitempty"`
 	// probe mode: which compression codes does the writer accept at all (each must be named by the schema)
+	Sync bool `json:"sync,omitempty"` // every second record goes through WriteSync
 	Probe    bool  `json:"probe,omitempty"`
 	Accepted []int `json:"accepted,omitempty"`
 	Unnamed  []int `json:"unnamed,omitempty"`
@@ -119,7 +120,13 @@ func (c *c20Case) Exec() {
 			}
 			must(w.Seek(mark))
 		}
-		off, err := w.Write(c.rec(i))
+		var off uint64
+		var err error
+		if c.Sync && i%2 == 0 {
+			off, err = w.WriteSync(c.rec(i))
+		} else {
+			off, err = w.Write(c.rec(i))
+		}
 		must(err)
 		c.Offs = append(c.Offs, off)
 	}
@@ -202,6 +209,13 @@ func (c *c20Case) Sx() string {
 	if c.Fatal != "" || c.Probe {
 		return ""
 	}
+	total := 0
+	for i := range c.Recs {
+		total += len(c.Recs[i].Rec)
+	}
+	if total > 64<<10 {
+		return "" // judged by the oracle only
+	}
 	var recs, ctab, krecs []string
 	seen := map[string]bool{}
 	for i := range c.Recs {
@@ -266,6 +280,23 @@ func genC20(r *rand.Rand, tier string) []Case {
 			if r.Intn(2) == 0 {
 				c.Tail = append(c.Tail, c12Rec{Nil: true}, c12Rec{Nil: true}) // the very end of the file is a nil record
 			}
+		}
+		cases = append(cases, c)
+	}
+	// records that compress to a fraction of their length (their uncompressed length exceeds the size of the whole file),
+	// and files some of whose records were appended with WriteSync
+	for k := 0; k < 4; k++ {
+		c := &c20Case{Comp: k, Sync: k%2 == 1}
+		for j := 0; j < 3; j++ {
+			c.Recs = append(c.Recs, c12Rec{Rec: bytes.Repeat([]byte{byte('a' + j), byte('b' + j)}, 20000+r.Intn(25000))})
+		}
+		c.Recs = append(c.Recs, c12Rec{Nil: true}, c12Rec{Rec: []byte("tail")})
+		cases = append(cases, c)
+	}
+	for k := 0; k < 4; k++ {
+		c := &c20Case{Comp: k, Sync: true}
+		for j := 0; j < 2+r.Intn(4); j++ {
+			c.Recs = append(c.Recs, c12Rec{Rec: advPayload(r, 60)})
 		}
 		cases = append(cases, c)
 	}
